@@ -114,7 +114,17 @@ def run(ctx, res):
     def style_fn(c):
         import hashlib
         h = int(hashlib.md5(json.dumps(c['doc'], sort_keys=True).encode()).hexdigest(), 16)
-        return mapcase.Style(vocab='yarrrml') if (h % 4 == 1 and mapcase.yarrrml_ok(c)) else None
+        return mapcase.Style(vocab='yarrrml') if ((h % 4 == 1 or c.get('spelling') == 'yarrrml') and mapcase.yarrrml_ok(c)) else None
+    # directed: documents with graph maps on the subject map AND on some of several predicate-object maps, always written in YARRRML
+    from .c08 import gen_graph_case
+    found, tries = 0, 0
+    while found < ctx.scale(8, 60) and tries < 3000:
+        tries += 1
+        g = gen_graph_case(ctx.rng)
+        if mapcase.yarrrml_ok(g) and g['cfg'].get('nquads') and any(t.get('sgraphs') and len(t.get('poms', [])) >= 2 and any(p.get('graphs') for p in t['poms']) and any(not p.get('graphs') for p in t['poms']) for t in g['doc']) \
+                and not family.triggers(g):
+            g['spelling'] = 'yarrrml'
+            cases.append(g); found += 1
     whole = batch.run(cases, style_fn=style_fn)
     items, meta = [], []
     for case, rec in zip(cases, whole):
